@@ -99,6 +99,15 @@ class Pools:
                 infos.append({"text": False, "has_kids": True, "binary": True, "page": None})
                 specs.append("x" + hx(rng.choice([b"b64", b"zq7"])))
                 infos.append({"text": True, "has_kids": False})
+        if not covered and lid in EMBED and rng.chance(1, 2):
+            # a SyncML MetInf <Type> element and the MIME type of a WBXML DevInf document as a text node: after a raw start
+            # of <Type> the XML generator rewrites '+wbxml' to '+xml' (it looks at current_tag), as it does in a tree
+            ty = next((i for i, r in enumerate(self.langs[lid]["tags"]) if r[0] == "Type" and r[1] == 1), None)
+            if ty is not None:
+                specs.append("e%d.(.x%s.)" % (ty, hx(b"text/plain")))
+                infos.append({"text": False, "has_kids": True, "mime_type_elt": True, "page": 1})
+                specs.append("x" + hx(b"application/vnd.syncml-devinf+wbxml"))
+                infos.append({"text": True, "has_kids": False, "mime": True})
         return "/".join(specs), infos
 
 
@@ -111,6 +120,9 @@ def history(rng, infos, nops, raw=True, drate=20):
     texts = [i for i, inf in enumerate(infos) if inf["text"] and not inf.get("zero")]
     zeros = [i for i, inf in enumerate(infos) if inf.get("zero")]
     unused = list(range(len(infos)))
+    plain_texts = [i for i, inf in enumerate(infos) if inf["text"] and not inf.get("zero") and not inf.get("mime")]
+    pairs = [(i, j) for i in bins for j in plain_texts] + \
+            [(i, j) for i, a in enumerate(infos) if a.get("mime_type_elt") for j, b in enumerate(infos) if b.get("mime")]
     for _ in range(nops):
         r = rng.below(100)
         if zeros and rng.chance(1, 10):
@@ -120,6 +132,13 @@ def history(rng, infos, nops, raw=True, drate=20):
         if raw and bins and texts and rng.chance(1, 12):
             # directed: a raw start of a binary-flagged element, deleted, then a text node (current_tag must not survive)
             ops += ["S%d,1" % rng.choice(bins), "D", "N%d" % rng.choice(texts)]
+            continue
+        if pairs and rng.chance(1, 9):
+            # directed: raw start of a binary-flagged element (or of MetInf <Type>), ONE detached text node, raw end: what the
+            # text becomes depends on current_tag, which the raw start must leave set; the batch encoding of the same
+            # element with that text as its only child is the reference (props/C17/check.py, bracket oracle)
+            i, j = rng.choice(pairs)
+            ops += ["S%d,1" % i, "N%d" % j, "F%d,1" % i]
             continue
         if r < drate:
             ops.append("D")
